@@ -6,7 +6,8 @@
 package authorizers
 
 //@ func (*remoteAuthorizer).Execute
-//@   props C10
+//@   props C10 C11
+//@   ensures ret0 == nil ==> rverify.n > old(rverify.n) && rverify.arg0[rverify.n - 1] == a && rverify.ret0[rverify.n - 1] == nil
 
 // C11: the cache key covers the endpoint, the mechanism id, the forwarded header names, the rendered
 // payload, the ttl, the whole subject (id and attributes) and every rendered value - and does not
@@ -34,3 +35,22 @@ package authorizers
 //@   logged wdel
 //@   ensures hw.n == old(hw.n) + 2 && hw.arg0[old(hw.n)] == hash && hw.arg0[old(hw.n) + 1] == hash && hw.arg1[old(hw.n) + 1] == data
 //@   ensures le64.n == old(le64.n) + 1 && le64.arg2[old(le64.n)] == len(data) && le64.arg1[old(le64.n)] == hw.arg1[old(hw.n)] && len(hw.arg1[old(hw.n)]) == 8
+
+// C11: "no request receives a result ... validated under a different rule's policy". The cache key
+// of the remote authorizer does not (and need not) cover the rule-level expressions, provided that
+// whatever is used - a fresh response or a cached one - has passed *this* instance's expressions:
+// a successful Execute has evaluated them (ghost log rverify) and they held.
+//@ func (*remoteAuthorizer).verify
+//@   props C11
+//@   logged rverify
+
+//@ func (*remoteAuthorizer).doAuthorize
+//@   props C11
+//@   logged rdo
+//@   ensures ret1 == nil ==> ret0 != nil && rverify.n > old(rverify.n) && rverify.arg0[rverify.n - 1] == a && rverify.ret0[rverify.n - 1] == nil
+//@   assert at return#6: rverify.n > old(rverify.n) && rverify.arg0[rverify.n - 1] == a && rverify.ret0[rverify.n - 1] == nil
+//@   assert at return#1: ret1 != nil
+//@   assert at return#2: ret1 != nil
+//@   assert at return#3: ret1 != nil
+//@   assert at return#4: ret1 != nil
+//@   assert at return#5: ret1 != nil
